@@ -705,10 +705,10 @@ phase_a(const World& w, const Config& c, vh::Rng& rng, int n_est_ops, const stri
       }
     else
       ++g_checks;
-    if (s->is_blocks())
+    if (s->is_blocks() && sc.get_num_transaxial_crystals_per_block() >= 3)
       {
         // generator check: some pair must have clearly different incidence cosines (otherwise this template could not
-        // tell cosA*cosB from cosA*cosA)
+        // tell cosA*cosB from cosA*cosA); (with 2 crystals per block all crystals are at the same radius)
         double maxdiff = 0;
         for (int A = 0; A < ndet; ++A)
           for (int B = A + 1; B < ndet; ++B)
@@ -1881,7 +1881,7 @@ main(int argc, char** argv)
           {
             Config d4;
             d4.act = 1; d4.att = 1; d4.sp = 1; d4.tmpl = 4; d4.exam = 0; d4.thr = 0; d4.zoom = 0;
-            d4.ds_calls.push_back(std::make_pair(2, w.dims[4].buckets * 2));
+            d4.ds_calls.push_back(std::make_pair(2, w.dims[4].buckets * (w.dims[4].buckets % 2 == 0 ? 3 : 4)));
             phase_a(w, d4, rng, ne, "D4");
           }
         // automatic zoom / size (-1) of the scatter-point image
